@@ -601,6 +601,144 @@ def device_check(sc, go, crash_log):
     return fails
 
 
+# ------------------------------------------------------------------ discovery level: probe() against a scripted host
+def probe_scenarios(thorough, rnd):
+    """a host on the scanned subnet that greets and negotiates like a proper Reader and then misbehaves on
+    GetReaderConfig or on GetReaderCapabilities — ErrorMessage, failure status, cut-short / garbage / empty payload,
+    another message type, a reply beyond the buffering limit (really sent, or only claimed), a lying length, no reply,
+    closing instead — and then answers CloseConnection properly, with an error status, not at all, or by dropping the
+    stream.  probe runs in autoDiscover's ipWorker goroutines, which nothing recovers."""
+    gdc_fixed = struct.pack(">HHII", 4, 0x8000, 25882, 2001002)
+    caps_ok = _cat([status_msg(0, b""), tlv(137, gdc_fixed, lstr(b"fw5.14"), tlv(139, struct.pack(">HH", 1, 0)),
+                                            tlv(141, struct.pack(">HH", 4, 4)))])[0]
+    config_ok = _cat([status_msg(0, b""), tlv(218, b"\x00", lstr(bytes.fromhex("0016250012345678")))])[0]
+    first = ren_pl("utc", UTC0, CONN_OK).hex()
+
+    def modes(typ, ok):
+        return [("ok", dict(typ=typ, phex=ok.hex())),
+                ("error-message", dict(typ=100, phex=status_msg(100, b"no")[0].hex())),
+                ("failure-status", dict(typ=typ, phex=status_msg(100, b"refused")[0].hex())),
+                ("cut-short", dict(typ=typ, phex=ok[:len(ok) - 5].hex())),
+                ("half", dict(typ=typ, phex=ok[:len(ok) // 2].hex())),
+                ("empty", dict(typ=typ, phex="")),
+                ("garbage", dict(typ=typ, phex="ffee000301")),
+                ("wrong-type", dict(typ=13, phex=status_msg(0, b"")[0].hex())),
+                ("oversize", dict(typ=typ, phex=status_msg(0, b"")[0].hex(), rep=LIMIT // 8 + 2)),
+                ("oversize-claim", dict(typ=typ, phex=ok.hex(), claimed=LIMIT + 11)),
+                ("lying-length", dict(typ=typ, phex=ok.hex(), claimed=len(ok) + 10 + 7)),
+                ("none", dict(none=True)),
+                ("close", dict(close=True))]
+    out = []
+
+    kills_stream = ("oversize-claim", "lying-length", "none", "close")    # the connection fails before an orderly close
+
+    def add(name, config, caps, on_close):
+        cm = next(k for k, v in modes(12, config_ok) if v == config)
+        km = next(k for k, v in modes(11, caps_ok) if v == caps)
+        reached = cm if cm != "ok" else km
+        # the scenario as the model of probe sees it (Client/DeviceHostile.v probe_after)
+        ab = dict(se="failed" if on_close in ("ignore", "drop") or reached in kills_stream else "closed",
+                  config="with" if cm == "ok" else "none", caps="with" if cm == "ok" and km == "ok" else "none")
+        out.append(dict(name="probe/" + name, first=first, config=config, caps=caps, on_close=on_close, timeout_ms=300, _=ab))
+    ok_c, ok_k = modes(12, config_ok)[0][1], modes(11, caps_ok)[0][1]
+    slow = ("none", "oversize-claim", "lying-length")
+    for oc in ("answer", "error-status", "ignore", "drop"):
+        add("ok/ok/%s" % oc, ok_c, ok_k, oc)
+        for mname, m in modes(12, config_ok)[1:]:
+            if thorough or oc in ("answer", "error-status") or mname in ("error-message", "half", "none"):
+                if thorough or not (mname in slow and oc != "answer"):
+                    add("config-%s/%s" % (mname, oc), m, ok_k, oc)
+        for mname, m in modes(11, caps_ok)[1:]:
+            if thorough or oc in ("answer", "error-status") or mname in ("error-message", "half", "none"):
+                if thorough or not (mname in slow and oc != "answer"):
+                    add("caps-%s/%s" % (mname, oc), ok_c, m, oc)
+    # both requests fail
+    for mname, m in modes(12, config_ok)[1:4]:
+        add("config-%s+caps-%s/answer" % (mname, mname), m, dict(modes(11, caps_ok))[mname], "answer")
+    return out
+
+
+def probe_check(sc, go, crash_log):
+    if crash_log is not None:
+        sig, what = device_crash_signature(crash_log)
+        return [(sig.replace("device-crash:", "probe-crash:"),
+                 "the whole service process died while probe() (discovery: autoDiscover's ipWorker goroutine, which nothing recovers) "
+                 "talked to the scripted host of scenario %s: %s" % (sc["name"], what))]
+    if go.get("error") or go.get("note") and not go.get("returned"):
+        if "did not return" in (go.get("note") or ""):
+            return [("probe-wedged", "probe did not return within 30 s although its timeout is %d ms: %s" % (sc["timeout_ms"], sc["name"]))]
+        return [("probe-harness", "scenario did not run: %s" % (go.get("error") or go.get("note")))]
+    if sc["name"].startswith("probe/ok/ok/answer") and not (go["err"] == "nil" and go["device"]):
+        return [("probe-generator", "the well-behaved scripted host is not discovered (err=%s device=%r): the generator of this "
+                 "family is off" % (go["err"], go["device"]))]
+    return []
+
+
+PROBE_VARIANTS = [("000", "as found: the two replies are values shared with the exchange goroutine"),
+                  ("111", "replies handed over as pointers, both tested for nil"),
+                  ("101", "replies handed over as pointers, only the capabilities pointer tested"),
+                  ("110", "replies handed over as pointers, only the configuration pointer tested"),
+                  ("100", "replies handed over as pointers, neither tested")]
+
+
+def probe_model(scs, answers, crash_of):
+    """the extracted probe_after on every scenario's abstraction for each variant -> (agreeing variant, {variant: diffs})"""
+    usable = [i for i, sc in enumerate(scs) if sc.get("_") and (answers.get(i) or i in crash_of)]
+    reqs = ["probe %s %s %s %s" % (v, scs[i]["_"]["se"], scs[i]["_"]["config"], scs[i]["_"]["caps"]) for i in usable for v, _ in PROBE_VARIANTS]
+    if not reqs:
+        return None, {}
+    rc, lines = run_oracle(reqs)
+    if rc != 0 or len(lines) != len(reqs):
+        return None, {"oracle": ["oracle failed on probe requests"]}
+    diffs = {v: [] for v, _ in PROBE_VARIANTS}
+    k = 0
+    for i in usable:
+        a = answers.get(i)
+        for v, _ in PROBE_VARIANTS:
+            m = lines[k].strip()
+            k += 1
+            if a is None:
+                got = "panic"
+            elif not a.get("returned"):
+                got = "wedged"
+            elif a["err"] == "nil":
+                got = "info:%d" % (0 if a["device"].startswith("LLRP-") else 1)
+            else:
+                got = "err"
+            if m != got:
+                diffs[v].append("%s: model %s, probe %s" % (scs[i]["name"], m, got))
+    return next((v for v, _ in PROBE_VARIANTS if not diffs[v]), None), diffs
+
+
+def run_probe_family(exe, tier, seed, only=None):
+    scs = probe_scenarios(tier == "thorough", random.Random(seed + 43)) if only is None else [only]
+    answers, crashes = run_go(exe, [{k: v for k, v in sc.items() if k != "_"} for sc in scs], 900, test="TestVerifC10Probe", tag="p")
+    crash_of = dict(crashes)
+    by_sig = {}
+    for i, sc in enumerate(scs):
+        go, cl = answers.get(i), crash_of.get(i)
+        if go is None and cl is None:
+            continue
+        fails = probe_check(sc, go, cl)
+        if fails and cl is None and fails[0][0] == "probe-wedged":
+            a2, c2 = run_go(exe, [sc], 120, test="TestVerifC10Probe", tag="p2")
+            go, cl = a2.get(0), dict(c2).get(0)
+            fails = probe_check(sc, go, cl) if (go is not None or cl is not None) else fails
+        for sig, text in fails:
+            if sig not in by_sig:
+                by_sig[sig] = [text, sc, go, cl, []]
+            by_sig[sig][4].append(sc["name"])
+    reached = sum(1 for a in answers.values() if a.get("saw_config_request"))
+    variant, vdiffs = probe_model(scs, answers, crash_of)
+    if variant is None and vdiffs and only is None:
+        best = min(vdiffs, key=lambda v: len(vdiffs[v]))
+        i = next((k for k, sc in enumerate(scs) if vdiffs[best] and vdiffs[best][0].startswith(sc["name"] + ":")), 0)
+        by_sig.setdefault("model-differs:probe", ["no variant of the probe model (Client/DeviceHostile.v probe_after) agrees with every "
+                                                  "observation; closest %s: %s" % (best, "; ".join(vdiffs[best][:3])),
+                                                  scs[i], answers.get(i), crash_of.get(i), [x.split(":")[0] for x in vdiffs[best][:40]]])
+    return scs, answers, crashes, by_sig, dict(reached=reached, variant=variant, variants={v: len(d) for v, d in vdiffs.items()})
+
+
 DEV_VARIANTS = [("00", "as found: readerStart never stored, processReport assigns through possibly-nil pointers"),
                 ("10", "readerStart stored, processReport assigns through possibly-nil pointers"),
                 ("11", "readerStart stored, processReport guards the pointers"),
@@ -979,6 +1117,13 @@ def run(tier, seed, replay=None):
         dth = threading.Thread(target=lambda: dbox.update(r=run_device_family(exed, tier, seed, only)))
         dth.start()
 
+    pbox = {}
+    pth = None
+    if not replay or json.load(open(replay)).get("kind") == "probe-scenario":
+        ponly = json.load(open(replay)).get("scenario") if replay else None
+        pth = threading.Thread(target=lambda: pbox.update(r=run_probe_family(exed, tier, seed, ponly)))
+        pth.start()
+
     flags, probes, pans, pcr = probe_flags(exe)
     res.notes.append("behaviour flags of this tree (probed): " + ", ".join("%s=%s" % kv for kv in zip(FLAG_NAMES, flags))
                      + "; never-reply types: %s" % NEVER_REPLY)
@@ -1109,6 +1254,32 @@ def run(tier, seed, replay=None):
                                                               "C10_device_goroutines_never_panic_refuted (variant 10)")),
                               found_input=sig not in ("device-generator", "device-not-set-up", "model-differs:device"))
 
+    # discovery level
+    probe_evals = probe_reached = 0
+    if pth is not None:
+        pth.join()
+        if "r" not in pbox:
+            res.violation("harness-run", "the probe-level family did not run", dict(kind="harness"), False)
+        else:
+            pscs, pans_, pcrashes, pby, pmodel = pbox["r"]
+            probe_reached = pmodel["reached"]
+            res.notes.append("discovery level: variant of the probe model that agrees with every observation: %s (%s); disagreements per "
+                             "variant: %s" % (pmodel["variant"], dict(PROBE_VARIANTS).get(pmodel["variant"]), pmodel["variants"]))
+            for i, psc in enumerate(pscs):
+                if pans_.get(i) is None and i not in dict(pcrashes):
+                    continue
+                evals += 1
+                probe_evals += 1
+                dist["probe"] = dist.get("probe", 0) + 1
+                nontriv.add(psc["name"])
+            for sig, (text, psc, a, cl, names) in sorted(pby.items()):
+                res.violation(sig, "scenario %s: %s (%d scenarios show it)" % (psc["name"], text, len(names)),
+                              dict(kind="probe-scenario", scenario_names=[psc["name"]], scenario={k: v for k, v in psc.items() if k != "_"},
+                                   probe_model=dict(variant_agreeing_with_every_observation=pmodel["variant"], as_the_model_sees_it=psc.get("_"),
+                                                    theorems="coq/Props/C10.v C10_probe_never_panics / C10_probe_never_panics_refuted"), all_scenarios_with_this_signature=names[:40],
+                                   observed=a, crash_log=(cl or "")[-3000:], how="harness/driver/c10_test.go TestVerifC10Probe: one JSON line = this scripted host"),
+                              found_input=sig not in ("probe-generator", "probe-harness", "model-differs:probe"))
+
     for sig, (text, sc, go, cl, ol, found, names) in sorted(by_sig.items()):
         rp = dict(kind="scenario", correspondence="C10/Connect-vs-session", scenario_names=[sc.name], scenario=sc.to_json(),
                   all_scenarios_with_this_signature=names[:40], observed=go, crash_log=(cl or "")[-3000:], expected=ol[:3000],
@@ -1134,5 +1305,8 @@ def run(tier, seed, replay=None):
                                "parameters, RF survey entries stamped either way, every truncation / 16-bit corruption of such messages, "
                                "reports around the buffering limit, misbehaviour on the device's own SetReaderConfig; judged: process "
                                "survival, a sentinel event still published, the device dials again after the stream ended"),
+        probe_level=dict(scenarios=probe_evals, hosts_that_got_as_far_as_GetReaderConfig=probe_reached,
+                         what="probe() (discovery) against a scripted loopback host that negotiates properly and then misbehaves on "
+                              "GetReaderConfig / GetReaderCapabilities / CloseConnection; judged: process survival, probe returns"),
         trusted_base=res.assumptions)
     return res.finish()
